@@ -104,9 +104,28 @@ def lit_value(e):
 
 
 def apply_fn(f, x):
+    v = apply_fn_raw(f, x)
+    # ill-conditioned points (tan near a pole, log near 1, arcsin near 1, ...) amplify the last-bit
+    # differences between two evaluation orders of the argument beyond any fixed tolerance: outside
+    # "up to float rounding"
+    xf = float(x)
+    if xf != 0.0 and v != 0.0 and math.isfinite(v):
+        try:
+            w = apply_fn_raw(f, xf * (1 + 1e-9))
+            if abs(w - v) > 1e-6 * abs(v):
+                raise OutOfDomain("ill-conditioned function argument")
+        except OutOfDomain:
+            raise OutOfDomain("ill-conditioned function argument")
+    return v
+
+
+def apply_fn_raw(f, x):
     if isinstance(x, complex):
         raise OutOfDomain("complex function argument")
     x = float(x)
+    if f in ("sin", "cos", "tan") and abs(x) > 1e8:
+        # argument reduction of a huge angle differs between libm implementations (outside every property)
+        raise OutOfDomain("huge angle")
     try:
         if f == "sin":
             return math.sin(x)
@@ -189,6 +208,11 @@ def py_eval(e, env):
             return a / b
         return a ** b
     try:
+        if k in ("add", "sub", "mul") and isinstance(a, int) and isinstance(b, int):
+            r = a + b if k == "add" else (a - b if k == "sub" else a * b)
+            if abs(r) >= 2 ** 62:
+                raise OutOfDomain("int64 overflow")       # the properties exclude wrap-around
+            return r
         if k == "add":
             return a + b
         if k == "sub":
@@ -203,6 +227,8 @@ def py_eval(e, env):
                     raise OutOfDomain("integer to negative integer power")
                 if b > 64 or abs(a) > 10 ** 6:
                     raise OutOfDomain("big integer power")
+                if abs(a ** b) >= 2 ** 62:
+                    raise OutOfDomain("int64 overflow")
                 return a ** b
             if not isinstance(a, complex) and not isinstance(b, complex):
                 if a < 0 and float(b) != int(b):
